@@ -121,7 +121,7 @@ class Context:
             if rel.endswith(".py") and "/generated/" not in rel and os.environ.get("VERIF_NO_NORMALISE") != "1":
                 from .inline_helpers import inline_new_helpers, inventory
                 known = inventory().get(rel)
-                if known is not None:
+                if known is not None and os.environ.get("VERIF_NO_INLINE") != "1":
                     self.cache["inlined_helpers:" + rel] = inline_new_helpers(mod, known)
                 normalise_polarity(mod)
                 inline_temporaries(mod)
